@@ -372,6 +372,11 @@ func (p *Peer) handleReplicatorFailure(ctx context.Context, peerID, docID string
 }
 
 func (p *Peer) handleCompletedReplicatorRetry(ctx context.Context, peerID string, success bool) error {
+	// This touches the same keys as handleReplicatorFailure, which can be called at any time. A transaction
+	// conflict with it would leave the replicator marked as retrying forever, so both are serialized.
+	p.handleRetryMutex.Lock()
+	defer p.handleRetryMutex.Unlock()
+
 	clientTxn, err := p.db.NewTxn(ctx, false)
 	if err != nil {
 		return err
@@ -551,6 +556,11 @@ func (p *Peer) retryReplicators(ctx context.Context) {
 }
 
 func (p *Peer) setReplicatorAsRetrying(ctx context.Context, key keys.ReplicatorRetryIDKey, rInfo retryInfo) error {
+	// Writing the retry key while handleReplicatorFailure is running would make its transaction fail with
+	// a conflict and the failed push would not be recorded.
+	p.handleRetryMutex.Lock()
+	defer p.handleRetryMutex.Unlock()
+
 	rInfo.Retrying = true
 	rInfo.NumRetries++
 	b, err := cbor.Marshal(rInfo)
